@@ -1,8 +1,8 @@
-\* C14 thorough: 9 kind spellings x 5 extents (incl. empty and backwards ranges) x 11 metric value shapes x 5 aggregations x the 8 signal
-\* subsets = 19800 abstract events; replayed over HTTP/protobuf, HTTP/JSON+gzip and gRPC+gzip.
+\* C14 thorough: 19 kind spellings/value forms (7 forms each of span and metric) x 5 extents (incl. empty and backwards ranges) x 11 metric value shapes x 5 aggregations x the 8 signal
+\* subsets = 41800 abstract events; replayed over HTTP/protobuf, HTTP/JSON+gzip and gRPC+gzip.
 SPECIFICATION Spec
 CONSTANTS
-    Kinds = {"absent", "span", "metric", "SPAN", "padMetric", "other", "int", "typedSpan", "typedMetric"}
+    Kinds = {"absent", "other", "int", "SPAN", "padMetric", "span", "typedSpan", "spanTypedOwned", "spanStrOwned", "spanDisplay", "spanFromDisplay", "spanString", "metric", "typedMetric", "metricTypedOwned", "metricStrOwned", "metricDisplay", "metricFromDisplay", "metricString"}
     Extents = {"none", "point", "range", "emptyRange", "backRange"}
     Vals = {"i64", "f64", "u64big", "seqi", "seqf", "emptySeq", "nestedSeq", "textSeq", "text", "bool", "missing"}
     Aggs = {"count", "sum", "last", "missing", "other"}
